@@ -104,11 +104,11 @@ Proof.
   destruct (parse_tl false (b :: r)) as [[h1 r1]|] eqn:E1; [|now left].
   rewrite (parse_tl_cons _ _ E1).
   destruct (explicit p); [|now right].
-  destruct r1 as [|c r1']; [now right|].
-  destruct ((t_class h1 =? (if application p then 1 else 2))%N && opt_tag_eqb (t_tag h1) (ptag p)
+  destruct ((t_class h1 =? (if application p then 1 else if private p then 3 else 2))%N && opt_tag_eqb (t_tag h1) (ptag p)
             && ((t_len h1 =? 0)%N || t_comp h1)); [|now right].
   destruct (is_raw t); [now right|].
   destruct (0 <? t_len h1)%N; [|now right].
+  destruct r1 as [|c r1']; [now right|].
   destruct (parse_tl false (c :: r1')) as [[h2 r2]|] eqn:E2; [|now left].
   rewrite (parse_tl_cons _ _ E2). now right.
 Qed.
